@@ -19,6 +19,8 @@ def run(ctx):
     J.j4_equality_purity(ctx)
     J.j5_bijection_maps(ctx)
     J.j6_all_rules_written(ctx)
+    J.j7_positional_settings(ctx)
+    ctx.floor("J7", 1)
     ctx.floor("J6", 2)
     ctx.floor("J1", 14)
     ctx.floor("J2", 8)
